@@ -11,6 +11,11 @@ from lib.common import hx
 from props import _ecdsa_common as E
 from props._ecdsa_common import ParCorr, bitlen, leftmost_bits
 
+# modules re-checked by `lake env leanchecker` in the thorough tier
+LEANCHECK = ["Props.C14", "Proofs.EcdsaRecoverBase", "Proofs.EcdsaRecover", "Proofs.EcdsaRecover2", "Proofs.EcdsaToy2",
+             "Proofs.EcdsaInstOrd", "Proofs.EcdsaInstCurve", "Proofs.EcdsaInstRecover", "Proofs.EcdsaInstNt", "Proofs.EcdsaInstCard",
+             "Proofs.EcdsaInstNamed"]
+
 RULE = ("honest signatures over d, k in {1, 2, n-2, n-1, n//2, n//2+1, leading-zero-byte values, random} x digest classes {1 byte, "
         "all-00, all-FF, n, n-1, n+1 byte, long, SHA-1/256/512, short, leading 00} x decoders {string, der (+ strings in the "
         "correspondence)} x allow_truncate, through Signature.recover_public_keys, from_public_key_recovery_with_digest and "
@@ -312,6 +317,7 @@ def correspond(ctx):
                             c["recover"].add(line, th, "toy-%s product" % mode, 5e-5)
     for k in c:
         c[k].run()
+        c[k].mirror_ref().run()
 
 
 def search(ctx):
